@@ -105,6 +105,9 @@ class Sys:
             class K:
                 f = wrap(deco(inner))
 
+                def __len__(self):      # an instance that is falsy (an empty container, say) is an instance all the same
+                    return 0
+
             self.K = K
             self.insts = {1: K(), 2: K()}
             self.target = lambda n: self.insts[n].f if n else K.f
